@@ -262,6 +262,9 @@ func splitLabel(t string) (label, hash string) {
 
 func (e *routeEnv) disk(id, what string) string {
 	id = common.GetCanonicalBeaconID(tok(id))
+	if _, running := e.dd.VerifProcs()[id]; running {
+		return "busy" // the operator does not rewrite the key folder of a running chain
+	}
 	dir := path.Join(e.base, id)
 	switch {
 	case what == "none":
@@ -281,6 +284,9 @@ func (e *routeEnv) disk(id, what string) string {
 		}
 		return "ok"
 	case strings.HasPrefix(what, "grp:") || strings.HasPrefix(what, "bad:"):
+		if strings.Count(what, "=") != 1 {
+			return "bad-op"
+		}
 		label, hash := splitLabel(what[4:])
 		g := e.grp(label)
 		if g.hash != hash {
@@ -407,10 +413,11 @@ func (e *routeEnv) req(id, hash string) string {
 	} else {
 		obs = append(obs, "pk="+e.ownerOf(r.GetPubKey()))
 	}
-	if r, err := e.dd.Status(e.ctx, &drand.StatusRequest{Metadata: e.metadata(id, hash)}); err != nil {
+	// (the status content depends on goroutine timing; only the routing outcome is observed)
+	if _, err := e.dd.Status(e.ctx, &drand.StatusRequest{Metadata: e.metadata(id, hash)}); err != nil {
 		obs = append(obs, "st="+routeErr(err))
 	} else {
-		obs = append(obs, fmt.Sprintf("st=ok:%v", r.GetBeacon().GetIsRunning()))
+		obs = append(obs, "st=ok")
 	}
 	if r, err := e.dd.PublicRand(e.ctx, &drand.PublicRandRequest{Metadata: e.metadata(id, hash)}); err != nil {
 		obs = append(obs, "rand="+routeErr(err))
@@ -527,6 +534,9 @@ func (e *routeEnv) step(f []string) string {
 		e.observe()
 		return routeErr(err)
 	case f[0] == "dkg" && len(f) == 3:
+		if strings.Count(f[2], "=") != 1 {
+			return "bad-op"
+		}
 		bp, ok := e.dd.VerifProcs()[f[1]]
 		if !ok {
 			return "no-proc"
@@ -564,6 +574,9 @@ func routeEngine(args []string, in *bufio.Scanner, out *bufio.Writer) {
 			continue
 		}
 		res := safely(func() string { return e.step(f) })
+		if strings.HasPrefix(res, "panic:") && strings.Contains(res, "nil pointer dereference") {
+			res = "panic:nil-deref"
+		}
 		fmt.Fprintln(out, res)
 	}
 	out.Flush()
